@@ -450,20 +450,26 @@ pub fn volvo_history(out: &mut Out, ops: &[u8], rng: &mut Rng) {
             }
             _ => {
                 // wait: age the stored command by rewriting its timestamp (no sleeping); well away from the deadline
-                let mut ms: u64 = *rng.pick(&[100u64, 500, 1500, 2600, 5000]);
+                // (also ages past one and two minutes: a command does not become young again)
+                let mut ms: u64 = *rng.pick(&[100u64, 500, 1500, 2600, 5000, 500, 2600, 64_000, 66_000, 131_500]);
                 // keep the simulated age at least 150 ms away from the 2000 ms transition timeout
                 if (1850..=2150).contains(&(age_ms + ms)) {
                     ms += 400;
                 }
-                age_ms += ms;
+                // (a machine that has been up for less than the age cannot represent it: the wait is then left out)
+                let mut representable = true;
                 if let Some(m) = ctx.tx_last_message() {
-                    if let Some(t) = m.timestamp.checked_sub(std::time::Duration::from_millis(ms)) {
-                        ctx.set_tx_last_message(ObjectMessage { object: m.object, object_type: m.object_type, timestamp: t });
+                    match m.timestamp.checked_sub(std::time::Duration::from_millis(ms)) {
+                        Some(t) => ctx.set_tx_last_message(ObjectMessage { object: m.object, object_type: m.object_type, timestamp: t }),
+                        None => representable = false,
                     }
                 }
-                ins.push(format!("W:{}", ms));
-                outs.push("-".to_string());
-                out.count("op wait");
+                if representable {
+                    age_ms += ms;
+                    ins.push(format!("W:{}", ms));
+                    outs.push("-".to_string());
+                    out.count("op wait");
+                }
             }
         }
     }
